@@ -9,6 +9,10 @@ mkdir -p /tmp/verif-scratch && cp /verif/KNOWN_FINDINGS.txt /tmp/verif-scratch/
 bad=0
 for p in $props; do
   out=$(/verif/bin/verifcheck -property $p -verif /tmp/verif-scratch)
+  rc=$?
+  if [ $rc -ne 0 ] && ! echo "$out" | grep -q "^VIOLATION"; then
+    bad=1; echo "CRASH $p (exit $rc) on $(basename $patch):"; echo "$out" | head -5 | cut -c1-300
+  fi
   if echo "$out" | grep -q "^VIOLATION"; then
     bad=1; echo "ALARM $p on $(basename $patch):"; echo "$out" | grep -E "^  rule=" -A1 | cut -c1-400 | head -12
   fi
